@@ -10,7 +10,8 @@ RULE = ('C01 DAG generator plus failing dependencies (raise / killed worker) wit
         'task in t\'s parameters (found by the spec walker, not labtech\'s search); (b) every run()-start record comes '
         'after the end record of every executed dependency (O_APPEND trace = linearisation across processes); (c) every '
         'dependency read inside run() yields the digest of that dependency\'s value in this run (reference evaluator), and '
-        'for a failed dependency raises labtech TaskError; (d) a failed dependency does not abort the run in the caller. '
+        'for a failed dependency raises labtech TaskError; (d) a failed dependency does not abort the run in the caller. Engine "two-runs": the same task objects run twice, a context '
+        'flag making some dependencies fail only in the second call - reads must reflect the second call. '
         'Non-trivial = a dependency nested at container depth >= 2, or a completion batch of >= 2, or a failing dependency '
         'with a reader. Distinct = canonical hash of (engine, spec).')
 ASSUMPTIONS = ['single os.write on an O_APPEND descriptor orders trace records across processes',
@@ -39,12 +40,33 @@ def judge_obs(case: dict, obs) -> core.CaseResult:
     return core.CaseResult(findings=oracles.c02_ordering(case, obs, ex), nontrivial=multi or len(case['nodes']) >= 3, labels=('exhaustive-small',), summary=None)
 
 
+def check_two_runs(spec: dict) -> core.CaseResult:
+    """The same task objects run twice (same Lab or a new Lab on the same storage); in the second call a context flag makes some
+    tasks fail that succeeded in the first, and everything is re-executed (bust_cache or uncached types): every read inside run()
+    must reflect THIS call - the new value, or TaskError for a dependency that failed this time."""
+    from pbt import dagrun
+    second = spec['second']
+    obs = dagrun.execute_case(spec, second=second)
+    ex1 = oracles.expect_for(spec, obs)
+    findings = oracles.c02_ordering(spec, obs, ex1)
+    failed2 = False
+    if obs.second is not None and obs.outcome == 'return':
+        ex2 = oracles.expect_second(spec, obs, ex1, second)
+        failed2 = any(w.startswith('dep:') for w in ex2.why.values())
+        for f in oracles.c02_ordering(spec, obs.second, ex2):
+            findings.append(core.Finding(f.signature.replace('C02:', 'C02:second-run:'), f.detail))
+    f = specs.features(spec)
+    labels = [f'backend={spec["lab"]["backend"]}', 'two-runs', f'second:same_lab={second.get("same_lab")}'] + (['dependency_fails_only_in_second_run'] if failed2 else [])
+    return dagprop.result(obs, findings, failed2 or f['n_closure'] >= 3, labels, prop='C02')
+
+
 def plan(tier: str) -> list[dict]:
     q = tier == 'quick'
     jobs = dagprop.std_plan(tier, controlled=(9, 150, 2500), serial=(1, 60, 1200), fork=(2, 25, 500), spawn=(1, 5, 100))
     # focused fan-in cases (failing leaves read by a parent) for the backend that copies dependency results into each child
     jobs += [{'engine': 'spawn:fanin', 'n': 7 if q else 120, 'hashseed': i} for i in range(3)]
     jobs += [{'engine': 'fork:fanin', 'n': 25 if q else 400, 'hashseed': 4}]
+    jobs += [{'engine': 'two-runs:serial', 'n': 100 if q else 3000, 'hashseed': 5}, {'engine': 'two-runs:fork', 'n': 14 if q else 400, 'hashseed': 6}]
     return list(jobs) + dagprop.exhaustive_jobs(tier, 4)
 
 
@@ -53,6 +75,15 @@ def run_job(rec: core.Recorder, job: dict, seed: int) -> None:
         dagprop.run_exhaustive_job(rec, job, judge_obs, failing=True, cached=False)
         return
     eng = job['engine']
+    if eng.startswith('two-runs:'):
+        from hypothesis import strategies as st
+        b = eng.split(':')[1]
+        strat = st.builds(lambda sp, same, bust: {**sp, 'second': {'same_lab': same, 'bust': bust, 'context_extra': {'fa': True}}},
+                          specs.dag_spec(max_nodes=7, backends=(b,), fail_modes=['flag:fa', 'flag:fa', 'raise:ValueError'], fail_rate=30,
+                                         types=['NN', 'N1', 'Z', 'Z', 'N2'], contexts=False, storages=('local', 'none')),
+                          st.booleans(), st.sampled_from([True, True, False]))
+        core.run_hypothesis(rec, eng, strat, check_two_runs, max_examples=job['n'], seed=seed, shrink=(b == 'serial' or rec.tier == 'thorough'))
+        return
     if eng.endswith(':fanin'):
         core.run_hypothesis(rec, eng, specs.fanin_spec(eng.split(':')[0]), check, max_examples=job['n'], seed=seed, shrink=(rec.tier == 'thorough'))
         return
@@ -64,4 +95,5 @@ def run_job(rec: core.Recorder, job: dict, seed: int) -> None:
 
 
 def replay(record: dict) -> core.CaseResult:
-    return check(record['case'])
+    case = record['case']
+    return check_two_runs(case) if 'second' in case else check(case)
